@@ -131,7 +131,7 @@ class LearningSwitch (object):
         if not isinstance(duration, tuple):
           duration = (duration,duration)
         msg = of.ofp_flow_mod()
-        msg.match = of.ofp_match.from_packet(packet)
+        msg.match = of.ofp_match.from_packet(packet, event.port)
         msg.idle_timeout = duration[0]
         msg.hard_timeout = duration[1]
         msg.buffer_id = event.ofp.buffer_id
